@@ -33,7 +33,7 @@ def dec_probs(p):
     return None if p is None else [float.fromhex(x) for x in p]
 
 
-INITIALIZERS = ["LowRankInitialize", "TopDownInitialize", "UCGInitialize", "IsometryInitialize",
+INITIALIZERS = ["LowRankInitialize", "TopDownInitialize", "UCGInitialize", "UCGEInitialize", "IsometryInitialize",
                 "BaaLowRankInitialize"]
 
 
@@ -56,8 +56,7 @@ def configs(n, k):
            ("TopDownInitialize", None, (True,)),
            ("TopDownInitialize", {"global_phase": True}, (True,)),
            ("UCGInitialize", None, (True, False)),
-           # UCGEInitialize is left out on purpose: on sparse real states it prepares a wrong state by itself
-           # (e.g. UCGEInitialize([-0.6,0,0,0,-0.8,0,0,0]) gives +0.8), which is C01's subject, not C14's.
+           ("UCGEInitialize", None, (True, False)),
            ("IsometryInitialize", None, (True, False)),
            ("IsometryInitialize", {"scheme": "knill"},
             (() if n + na < 2 else (True,)) if (na < 2 or n < 2) else (True, False)),
